@@ -439,6 +439,45 @@ func (sc *C17Scenario) Execute(t *testing.T) *core.Outcome {
 	return out
 }
 
-var propC17 = &core.Property{ID: "C17", Gen: genC17, New: func() core.Scenario { return &C17Scenario{} }}
+// c17Grid: for a fixed family of acyclic graphs (chains, branches, several upcasters per source, raw edges
+// leading into the typed family) and a log holding one event of every type, a failure is injected at EVERY
+// upcaster application index of the replay (and none), with and without error handler.
+func c17Grid(tier string, yield func(core.Scenario)) string {
+	graphs := [][]C17Edge{
+		{{0, 1}},
+		{{0, 1}, {1, 2}, {2, 3}},
+		{{0, 1}, {0, 2}, {1, 3}, {2, 3}},             // diamond, first-registered edge wins at 0
+		{{0, 2}, {0, 1}, {1, 2}, {2, 4}, {2, 3}},     // several upcasters per source
+		{{0, 1}, {1, 100}},                           // raw chain into the typed family
+		{{3, 4}, {0, 1}, {4, 5}, {1, 100}, {5, 6}},   // two independent chains
+		{{0, 6}, {1, 6}, {2, 6}, {3, 6}, {4, 6}},     // fan-in
+	}
+	n := 0
+	for _, g := range graphs {
+		for typed := 0; typed <= 2; typed++ {
+			var log []C17Ev
+			for ty := 0; ty <= 6; ty++ {
+				log = append(log, C17Ev{Type: ty, V: ty})
+			}
+			if typed > 0 {
+				log = append(log, C17Ev{Type: 100, V: 4}, C17Ev{Type: 100, V: 3, Bad: true}, C17Ev{Type: 101, V: 5}, C17Ev{Type: 100, V: 9})
+			}
+			for failAt := -1; failAt <= 14; failAt++ {
+				for _, eh := range []bool{true, false} {
+					for _, sub := range []bool{false, true} {
+						if sub && typed != 2 {
+							continue
+						}
+						n++
+						yield(&C17Scenario{Edges: g, Typed: typed, Log: log, FailAt: failAt, ErrHandler: eh, Subscribe: sub, Store: StoreCfg{Kind: "mem"}})
+					}
+				}
+			}
+		}
+	}
+	return fmt.Sprintf("%d cases: 7 hand-picked acyclic graphs x typed family none/UA->UB/UA->UB->UC x a log with one event of every type x a failure injected at every upcaster application index 0..14 (and none) x with/without error handler (x SubscribeWithReplay for the full typed family)", n)
+}
+
+var propC17 = &core.Property{ID: "C17", Gen: genC17, New: func() core.Scenario { return &C17Scenario{} }, Explicit: c17Grid}
 
 func TestC17(t *testing.T) { core.RunProperty(t, propC17) }
